@@ -106,12 +106,18 @@ func NewSolarFromJulianDay(julianDay float64) *Solar {
 		minute -= 60
 		hour++
 	}
+	nextDay := false
 	if hour > 23 {
 		hour -= 24
-		day += 1
+		nextDay = true
 	}
 
-	return NewSolar(year, month, day, hour, minute, second)
+	solar := NewSolar(year, month, day, hour, minute, second)
+	if nextDay {
+		// carry into the next civil day, across month ends and the 1582 gap
+		solar = solar.NextDay(1)
+	}
+	return solar
 }
 
 func ListSolarFromBaZi(yearGanZhi string, monthGanZhi string, dayGanZhi string, timeGanZhi string) *list.List {
